@@ -215,7 +215,7 @@ func (r *schemaLoader) Resolve(ref *Ref, target interface{}, basePath string) er
 	return r.resolveRef(ref, target, basePath)
 }
 
-func (r *schemaLoader) deref(input interface{}, parentRefs []string, basePath string) error {
+func (r *schemaLoader) deref(input interface{}, parentRefs []string, basePath string) (*schemaLoader, string, error) {
 	var ref *Ref
 	switch refable := input.(type) {
 	case *Schema:
@@ -227,32 +227,37 @@ func (r *schemaLoader) deref(input interface{}, parentRefs []string, basePath st
 	case *PathItem:
 		ref = &refable.Ref
 	default:
-		return fmt.Errorf("unsupported type: %T: %w", input, ErrDerefUnsupportedType)
+		return r, basePath, fmt.Errorf("unsupported type: %T: %w", input, ErrDerefUnsupportedType)
 	}
 
 	curRef := ref.String()
 	if curRef == "" {
-		return nil
+		return r, basePath, nil
 	}
 
 	normalizedRef := normalizeRef(ref, basePath)
-	normalizedBasePath := normalizedRef.RemoteURI()
 
 	if r.isCircular(normalizedRef, basePath, parentRefs...) {
-		return nil
+		return r, basePath, nil
 	}
 
+	followed := *ref
 	if err := r.resolveRef(ref, input, basePath); r.shouldStopOnError(err) {
-		return err
+		return r, basePath, err
 	}
+
+	// what has just been resolved lives in the document designated by the followed $ref:
+	// any further $ref it holds must be resolved against that document, not against the root
+	transitiveResolver := r.transitiveResolver(basePath, followed)
+	basePath = r.updateBasePath(transitiveResolver, basePath)
 
 	if ref.String() == "" || ref.String() == curRef {
 		// done with rereferencing
-		return nil
+		return transitiveResolver, basePath, nil
 	}
 
 	parentRefs = append(parentRefs, normalizedRef.String())
-	return r.deref(input, parentRefs, normalizedBasePath)
+	return transitiveResolver.deref(input, parentRefs, basePath)
 }
 
 func (r *schemaLoader) shouldStopOnError(err error) bool {
